@@ -125,6 +125,7 @@ def vf_src(n):
     return vf.src(n)
 
 
+MUTATING_OPTION_METHODS = {"get_or_insert", "get_or_insert_with", "insert", "replace", "take", "as_mut", "take_if", "get_or_insert_default", "zip", "xor"}
 PURE_CONTAINER_METHODS = {"as_ref", "as_slice", "as_str", "borrow", "to_vec", "to_owned", "clone", "join", "concat", "capacity", "hash", "eq", "ne",
                           "to_string", "as_mut", "as_bytes", "deref", "first", "last", "get", "contains_key", "binary_search", "starts_with", "ends_with"}
 
@@ -694,6 +695,17 @@ class Interp:
         # closures in arguments are not evaluated
         args = [self.eval(a) if a["k"] != "closure" else a for a in e["a"]]
         num = isinstance(recv, (int, float)) and not isinstance(recv, bool)
+        if m in ("get_or_insert", "get_or_insert_with", "insert", "replace") and isinstance(recv, tuple) and recv[0] in ("Some", "None") and len(recv) <= 2 \
+                and e["r"]["k"] in ("field", "path", "index"):
+            # Option methods that write through the place they are called on
+            if m in ("get_or_insert", "get_or_insert_with"):
+                if recv[0] == "Some":
+                    return recv[1]
+                v = self.call_closure(args[0], []) if (m == "get_or_insert_with" and isinstance(args[0], dict)) else args[0]
+                self._store(e["r"], ("Some", v))
+                return v
+            self._store(e["r"], ("Some", args[0]))
+            return args[0] if m == "insert" else recv
         if m == "take" and isinstance(recv, tuple) and recv[0] in ("Some", "None") and e["r"]["k"] in ("field", "path"):
             self._store(e["r"], ("None",))
             return recv
@@ -1194,6 +1206,8 @@ class Interp:
                 return recv
             r = self.call_closure(args[0], [recv[1]])
             return ("Some", r) if m == "map" else r
+        if isinstance(recv, tuple) and recv and recv[0] in ("Some", "None", "Ok", "Err") and m in MUTATING_OPTION_METHODS:
+            raise Unknown("method .%s() writes through an Option/Result place and is not modelled here" % m)
         if isinstance(recv, (MutList, PyMap)) and m not in PURE_CONTAINER_METHODS:
             # an unmodelled method of a modelled mutable container may change it: ignoring the call would make the
             # rest of the run wrong instead of incomplete
